@@ -8,8 +8,8 @@ import signal
 import multiprocessing as mp
 
 VERIF = os.path.dirname(os.path.dirname(os.path.abspath(__file__)))
-EVID_DIR = os.path.join(VERIF, "evidence")
-REPLAY_DIR = os.path.join(VERIF, "replays")
+EVID_DIR = os.environ.get("NV_EVID_DIR") or os.path.join(VERIF, "evidence")
+REPLAY_DIR = os.environ.get("NV_REPLAY_DIR") or os.path.join(VERIF, "replays")
 KNOWN = os.path.join(VERIF, "known_findings.json")
 NPROC = int(os.environ.get("VERIF_JOBS", "16"))
 
